@@ -368,14 +368,9 @@ func CheckTokenGame(pfx string, prog *Program, hist []simlog.Ev) *TokenGameResul
 	return res
 }
 
-// hasOpenSubFinding: programs in which a sub-process sits in a loop, or is interrupted by a boundary event, run
-// into open known findings; their landmark counts are not compared.
+// hasOpenSubFinding: programs in which a sub-process is interrupted by a boundary event run into open known
+// findings; their landmark counts are not compared.
 func hasOpenSubFinding(prog *Program) bool {
-	for _, t := range prog.Tags {
-		if t == "sub-in-loop" {
-			return true
-		}
-	}
 	for _, g := range prog.Defs.Procs {
 		for _, n := range g.Nodes {
 			if n.Kind == "boundary" {
